@@ -115,6 +115,17 @@ func runOneMutant(exe, vdir, repo string, m Mutant) mutantResult {
 		}
 	}
 	s := string(out)
+	if m.Expect == "NONE" {
+		// negative control: a behaviour-preserving (or requirement-relaxing) variant on which the check must stay silent
+		switch code {
+		case 0:
+			return mutantResult{m.ID, "silent", "negative control: no alarm, as required"}
+		case 1:
+			return mutantResult{m.ID, "falsealarm", "negative control raised an alarm: " + firstLines(s, 3)}
+		default:
+			return mutantResult{m.ID, "invalid", "variant does not load/type-check: " + firstLines(s, 3)}
+		}
+	}
 	switch code {
 	case 2:
 		return mutantResult{m.ID, "invalid", "variant does not load/type-check: " + firstLines(s, 3)}
@@ -188,7 +199,8 @@ func runMutants(vdir, repo, prop string) map[string]any {
 		counts[r.Status]++
 		fmt.Printf("  mutant %-28s %-8s %s\n", r.ID, r.Status, firstN(r.Detail, 160))
 	}
-	return map[string]any{"variants": len(mine), "detected": counts["detected"], "missed": counts["missed"], "skipped": counts["skipped"], "invalid": counts["invalid"], "results": results,
+	return map[string]any{"variants": len(mine), "detected": counts["detected"], "missed": counts["missed"], "skipped": counts["skipped"], "invalid": counts["invalid"],
+		"negative_controls_silent": counts["silent"], "negative_controls_false_alarm": counts["falsealarm"], "results": results,
 		"note": "informational self-test of the checker on single-edit variants of today's source (analysis-time overlay; nothing is written to the repository); does not affect the exit code"}
 }
 
@@ -218,6 +230,9 @@ func cmdSelftest(args []string) int {
 			bad += n
 		}
 		if n, _ := res["invalid"].(int); n > 0 {
+			bad += n
+		}
+		if n, _ := res["negative_controls_false_alarm"].(int); n > 0 {
 			bad += n
 		}
 	}
